@@ -917,7 +917,7 @@ func draw(t *rapid.T) Case {
 }
 
 func (c Case) input() []byte {
-	if c.Raw != nil {
+	if len(c.Raw) > 0 {
 		return c.Raw
 	}
 	if c.Cram != nil {
@@ -963,7 +963,7 @@ func run(c Case, rec *h.Rec) {
 	case iso.Panic:
 		rec.Failf("decoder %s panicked on a %d-byte input: %s", c.Target, len(data), msg)
 	case iso.Hang:
-		rec.Failf("decoder %s did not return within 30s on a %d-byte input (re-run alone with ten times the budget)\n%s", c.Target, len(data), head(msg, 40))
+		rec.Failf("decoder %s did not return on a %d-byte input: %s", c.Target, len(data), head(msg, 60))
 	case iso.Died:
 		rec.Failf("decoder %s killed its process on a %d-byte input: %s", c.Target, len(data), head(msg, 30))
 	}
